@@ -357,10 +357,12 @@ Definition slice_transform (from : N) (to : option N) (s : str) : outcome str :=
   if N.ltb len from then Ok []
   else
     let to := if N.ltb len to then len else to in
-    if N.ltb to from then Panic SITE_SLICE_ORDER
+    (* str.get(from..to).unwrap_or_default(): None when from > to or a bound is not a char boundary
+       (before the repair db79cd0 this was str[from..to], which panicked in exactly those cases) *)
+    if N.ltb to from then Ok []
     else if is_char_boundary s from && is_char_boundary s to
          then Ok (firstn (N.to_nat (to - from)) (skipn (N.to_nat from) s))
-         else Panic SITE_SLICE_BOUNDARY.
+         else Ok [].
 
 (* oracle for the transformations done by heck and by Unicode case mapping: kind, input -> output *)
 Definition K_CAMELIZE : N := 1. Definition K_DASHERIZE : N := 2. Definition K_UNDERSCORIZE : N := 3.
